@@ -723,6 +723,13 @@ func runScenSched(kv map[string]string) string {
 	}
 	m, err := c20lib.NewManual(scenPool(kv, e, map[string]any{"type": "once", "times": 1}, n), n)
 	if err != nil {
+		// the two errors convertScenarioToAmmo answers a request list with are part of the model (Model/C20Expand.lean)
+		switch {
+		case strings.Contains(err.Error(), "must follow a request"):
+			return "setup=scenario-leading-sleep"
+		case strings.Contains(err.Error(), "a scenario may hold at most"):
+			return "setup=scenario-too-many-requests"
+		}
 		return "setup=" + c20lib.Enc(c20lib.Trunc(err.Error(), 160))
 	}
 	defer m.Close()
@@ -949,6 +956,12 @@ func class(input, obs string) string {
 		}
 		if sharedTagRe.MatchString(kv["calls"]) {
 			c += "/written-tags"
+		}
+		if strings.HasPrefix(obs, "setup=scenario-") {
+			c += "/request-list-rejected"
+		}
+		if strings.Contains(kv["scns"], "*0") {
+			c += "/count-zero"
 		}
 	}
 	return c
